@@ -16,7 +16,8 @@ product does not fit, every content still gets the *core* combinations (each for
 of compile_grammar, each single flag of validate / write) and the rest of its share is drawn from the full
 product with `rng`; nothing depends on wall-clock time.
 
-Known-finding class predicates (input-based, narrow) live here too: `eject_json_holographic`.
+Known-finding class predicates (input-based, narrow) live here too: `eject_json_holographic` (F33),
+`eject_json_meta_nested_block` (F52).
 """
 from __future__ import annotations
 
@@ -247,7 +248,37 @@ def eject_json_holographic(tool, args) -> bool:
     return False
 
 
-KNOWN_CLASSES = {"F33": eject_json_holographic}
+def _is_ast_value(value):
+    from octave_mcp.core.ast_nodes import HolographicValue, InlineMap, ListValue, LiteralZoneValue
+    return isinstance(value, (HolographicValue, InlineMap, ListValue, LiteralZoneValue))
+
+
+def _dict_holds_ast_value(d):
+    for v in d.values():
+        if isinstance(v, dict):
+            if _dict_holds_ast_value(v):
+                return True
+        elif _is_ast_value(v):
+            return True
+    return False
+
+
+def eject_json_meta_nested_block(tool, args) -> bool:
+    """F52: octave_eject(format="json") on content whose META holds a *nested block* (kept by the parser as a plain
+    dict) with a list / inline map / holographic / literal-zone value inside: eject._convert_value does not descend
+    into plain dicts, so the AST value object reaches json.dumps."""
+    if tool != "eject" or args.get("format") != "json" or not isinstance(args.get("content"), str):
+        return False
+    from octave_mcp.core.parser import parse
+    from octave_mcp.core.projector import project
+    try:
+        doc = project(parse(args["content"]), mode=args.get("mode", "canonical")).filtered_doc
+    except Exception:  # noqa: BLE001
+        return False
+    return bool(doc.meta) and any(isinstance(v, dict) and _dict_holds_ast_value(v) for v in doc.meta.values())
+
+
+KNOWN_CLASSES = {"F33": eject_json_holographic, "F52": eject_json_meta_nested_block}
 
 
 def classify(tool, args):
